@@ -87,6 +87,8 @@ def gen_case(cid, kinds, cfg, generic):
             attrs += ["#[unwrap(ref, ref_mut)]", "#[try_unwrap(ref, ref_mut)]"] if vi in vmuts else ["#[unwrap(ref)]", "#[try_unwrap(ref)]"]
         if vi in vrefs and do_tryinto:
             attrs += ["#[try_into(owned, ref, ref_mut)]" if vi in vmuts else "#[try_into(owned, ref)]"]   # accepted at variant level like the selections of Unwrap: it must then have that effect
+        if vi in cfg.get("variant_mut_only", set()) and do_unwrap:
+            attrs += ["#[unwrap(ref_mut)]", "#[try_unwrap(ref_mut)]"]   # next to an enum-level `ref`: an addition, the inherited `ref` stays
         if vi in cfg.get("variant_owned", set()) and do_tryinto:
             attrs += ["#[try_into(owned)]"]
         if vi in cfg.get("enable_attr", set()):
@@ -152,7 +154,7 @@ def gen_case(cid, kinds, cfg, generic):
             if not do_unwrap:
                 continue
             want_ref = sel_ref or (j in vrefs)
-            want_mut = sel_mut or (j in vmuts)
+            want_mut = sel_mut or (j in vmuts) or (j in cfg.get("variant_mut_only", set()))
             # (`#[unwrap(ref)]` on one variant ADDS `unwrap_x_ref` for it - unwrap.md / try_unwrap.md - and changes nothing for the others)
             if i == j:
                 L.append('r.eq("unwrap_%s on own variant", v%d.clone().unwrap_%s(), %s);' % (sn, i, sn, tup(fields_j) if fields_j else "()"))
@@ -316,6 +318,12 @@ def run(chk, tier):
         for pos in range(len(kinds)):
             for sel in (("ref",), ("ref_mut",), ("ref", "ref_mut")):
                 add(kinds, {"sel": sel, "variant_owned": {pos}})
+    # an enum-level `ref` and ONE variant adding `ref_mut` for itself (Unwrap / TryUnwrap: additive at both levels)
+    for kinds in (["t1a", "t1b"], ["t1a", "t2", "unit"], ["unit", "t2", "t1b"], ["t2", "t1a", "t1a"]):
+        for pos in range(len(kinds)):
+            if KINDS[kinds[pos]][1]:
+                add(kinds, {"sel": ("ref",), "variant_mut_only": {pos}})
+                add(kinds, {"sel": ("owned", "ref"), "variant_mut_only": {pos}})
     for kinds in (["unit"], ["t1a"], ["unit", "t1a"], ["t2", "unit", "n1"], ["t1a", "t1b", "unit"]):
         add(kinds, dict(RAW))
         add(kinds, dict(RAW, refs=True))
